@@ -34,6 +34,9 @@ ObsCarets(t, g) == LET S == {k \in 1..Len(t.F.gdef.carets) : t.F.gdef.carets[k][
 \* (a static build stores each position once; a variable build keeps coinciding carets apart, since they may differ elsewhere in
 \*  the design space: both are the anchors' coordinates in increasing order)
 NonDecreasing(s) == \A k \in 1..(Len(s) - 1) : s[k] <= s[k + 1]
+\* carets the user's own GDEF block defines (by position or by contour point index) are left alone: the compiled list is theirs
+UserCaretsOK(t) == t.userDefinesCarets => {<<t.F.gdef.carets[k][1], t.F.gdef.carets[k][2]>> : k \in 1..Len(t.F.gdef.carets)}
+                                          = {<<t.userCarets[k][1], t.userCarets[k][2]>> : k \in 1..Len(t.userCarets)}
 CaretsOK(t) == t.userDefinesCarets \/ \A g \in Exported(t) :
                  LET o == ObsCarets(t, g)  e == ExpCarets(t, g) IN
                  \/ o = e
@@ -60,6 +63,7 @@ Next ==
   /\ LET t == Traces[i]
          p == IF ~ClassesOK(t) THEN "gdef-classes-mirror-categories"
               ELSE IF ~CaretsOK(t) THEN "carets-sorted-rounded"
+              ELSE IF ~UserCaretsOK(t) THEN "user-carets-left-alone"
               ELSE IF ~CursOK(t) THEN "cursive-records-and-direction" ELSE "none"
      IN PrintT(<<"VERDICT", t.tid, p, "none", ToString(IF t.userDefinesCurs THEN {} ELSE CursBad(t))>>)
   /\ i' = i + 1
